@@ -142,6 +142,18 @@ def gen(rng, tier):
     return out
 
 
+def shrink(c):
+    """smaller requests: drop one requested PID at a time (the packets are kept: they are one logical PMT)"""
+    if not c.line.startswith("pmt.filter "):
+        return
+    head, _, tail = c.line.rpartition(" ] [")
+    want = tail.replace("]", " ").split()
+    for i in range(len(want)):
+        w2 = want[:i] + want[i + 1:]
+        if w2:
+            yield Case("%s ] [ %s ]" % (head, " ".join(w2)), kind=c.kind, decides=c.decides, theorem=c.theorem)
+
+
 def case_of_line(line, kind):
     return Case(line, kind=kind, decides=not kind.startswith("fid-"))
 
